@@ -38,6 +38,62 @@ def main(payload):
     return None
 
 
+NEWTON_SCRIPT = r'''
+import warnings
+from exactpack.solvers.nohblackboxeos.equations_of_state import eos_library as L
+from exactpack.solvers.nohblackboxeos.solution_tools import residual_functions as RF
+from exactpack.solvers.nohblackboxeos.solution_tools.newton_solvers import newton_solver
+def main(payload):
+    out = []
+    for c in payload:
+        try:
+            with warnings.catch_warnings():
+                warnings.simplefilter('ignore')
+                eos = L.ideal_gas_eos(c['g']) if c['eos'] == 'ideal' else L.noble_abel_eos(c['g'], 0.02)
+                f = RF.pressure_noh_residual(c['ic'], eos)
+                ns = newton_solver()
+                ns.set_function(f); ns.set_new_tolerance(1e-12)
+                res = []
+                for guess in c['guesses']:
+                    # the same solver object is given a new initial guess and asked to solve again (a retry, or the next step of a sweep)
+                    ns.set_new_initial_guess([float(v) for v in guess])
+                    r = ns.solve(verbose=False)
+                    x = np.array(r['solution'], dtype=float)
+                    res.append({'solution': [float(v) for v in x], 'F_norm': float(np.linalg.norm(f.F(x))), 'iterations': int(r['number_of_iterations']),
+                                'reported_error': float(r['error_achieved'])})
+                out.append({'solves': res})
+        except Exception as ex:
+            out.append({'error': type(ex).__name__ + ': ' + str(ex)[:200]})
+    return out
+'''
+
+
+def newton_oracle(rng, tier, reasons):
+    """a state that the Newton solver REPORTS as converged (reported error below the tolerance) must be a root of the residual, also on the second and
+    third solve of one solver object after set_new_initial_guess; guesses are perturbations of the analytic strong-shock state (ideal gas) so that the
+    iteration stays in the basin of the physical root."""
+    cases = []
+    for _ in range(3 if tier == 'quick' else 12):
+        g = round(rng.uniform(1.3, 2.0), 3); u0 = -round(rng.uniform(0.5, 2.0), 3); rho0 = round(rng.uniform(0.5, 2.0), 3); sym = rng.choice([0, 1, 2])
+        D = 0.5 * (g - 1) * abs(u0); rho = rho0 * ((g + 1) / (g - 1)) ** (sym + 1); e = 0.5 * u0 * u0
+        guesses = [[rho * rng.uniform(0.8, 1.2), e * rng.uniform(0.8, 1.2), D * rng.uniform(0.8, 1.2)] for _ in range(3)]
+        cases.append({'eos': rng.choice(['ideal', 'na']), 'g': g, 'ic': {'velocity': u0, 'density': rho0, 'pressure': 0.0, 'symmetry': sym}, 'guesses': guesses})
+    res = H.run_real(NEWTON_SCRIPT, cases, timeout=900)
+    fails = []
+    for c, r in zip(cases, res):
+        if 'error' in r:
+            if not r['error'].startswith('IterationError'):
+                fails.append({'solver': 'newton_solver + pressure_noh_residual', 'input': c, 'why': 'harness could not drive the solver', 'error': r['error']})
+            continue
+        for k, sv in enumerate(r['solves']):
+            scale = 0.5 * c['ic']['velocity'] ** 2 + 1.0
+            if sv['reported_error'] <= 1e-10 and sv['F_norm'] > 1e-7 * scale:
+                fails.append({'solver': 'newton_solver + pressure_noh_residual', 'input': c, 'solve_number': k + 1, 'returned': sv,
+                              'why': 'the solver reports convergence but the returned state is not a root of the residual (stale convergence measures after '
+                                     'set_new_initial_guess?)'})
+    return fails
+
+
 def eos_corr(rng, tier, prop):
     """generated EOS methods vs the real classes, decided inside Coq"""
     import os
@@ -95,6 +151,8 @@ UNITS = [
                         dict(id='blackbox-default-guess-spurious-root', refuted=None, pending=None,
                              what='NohBlackBoxEos with its default initial guess converges to the spurious root D=u0<0 (ideal gas gamma=5/3): negative shock speed, no shocked region',
                              replay=replay_default_guess)]),
+    flow.Unit('newton-solver-real-code', groups=[], props=[], oracle=newton_oracle, always_oracle=True,
+              note='newton_solver used repeatedly (solve, set_new_initial_guess, solve again): every state reported as converged is a root of the residual'),
 ]
 
 
